@@ -281,6 +281,42 @@ func c05Text(repo, out string, args []string) error {
 		}
 	}
 	b.WriteString("/-- the `if / else if / else` chain of WriteMeshes that picks the face writer: condition as (needs normals, needs uvs) —\n    a `false` component is not tested —, `none` = the final else; first match wins -/\ndef writerChain : List (Option (Bool × Bool) × List Tok) :=\n  [" + strings.Join(rows, ",\n   ") + "]\n\n")
+	// ---- the reader's keyword dispatch: `switch components[0]` in ReadMesh (reader.go)
+	rf, err := parser.ParseFile(fset, filepath.Join(repo, "formats", "obj", "reader.go"), nil, 0)
+	if err != nil {
+		return err
+	}
+	var sw *ast.SwitchStmt
+	nsw := 0
+	for _, d := range rf.Decls {
+		if x, ok := d.(*ast.FuncDecl); ok && x.Recv == nil && x.Name.Name == "ReadMesh" {
+			ast.Inspect(x.Body, func(n ast.Node) bool {
+				if s, ok := n.(*ast.SwitchStmt); ok && s.Tag != nil && c05Str(fset, s.Tag) == "components[0]" {
+					sw = s
+					nsw++
+				}
+				return true
+			})
+		}
+	}
+	if sw == nil || nsw != 1 {
+		return fmt.Errorf("reader.go: expected exactly one `switch components[0]` in ReadMesh, found %d", nsw)
+	}
+	var kws []string
+	for _, cl := range sw.Body.List {
+		cc := cl.(*ast.CaseClause)
+		if cc.List == nil {
+			return fmt.Errorf("reader.go:%d: the keyword switch has a default clause", fset.Position(cc.Pos()).Line)
+		}
+		for _, e := range cc.List {
+			lit, ok := e.(*ast.BasicLit)
+			if !ok || lit.Kind != token.STRING {
+				return fmt.Errorf("reader.go:%d: case label is not a string literal: %s", fset.Position(e.Pos()).Line, c05Str(fset, e))
+			}
+			kws = append(kws, lit.Value)
+		}
+	}
+	b.WriteString("/-- the case labels of `switch components[0]` in `ReadMesh` (reader.go), in source order; the switch has no default\n    clause: a line with any other first field is ignored -/\ndef readerKeywords : List String :=\n  [" + strings.Join(kws, ", ") + "]\n\n")
 	b.WriteString("end PolyVerif.Gen.ObjText\n")
 	return os.WriteFile(out, []byte(b.String()), 0o644)
 }
